@@ -17,6 +17,17 @@ NAMES = ['a', 'b', 'c', 'd', 'p', 'item']
 ENCODINGS = ['UTF-8', 'UTF-16', 'ISO-8859-1', 'US-ASCII', 'windows-1252', 'UTF-16BE', 'ISO-8859-15']
 
 
+TOKENS = [']]>', ']]>', ']', ']]', '>', '\u20ac', '\u20ac', '\u00e9', '\r', 'x', '&', '<', '\U0001f600', ' ', '\n', '\u0152', 'ab']
+
+
+def gen_text(r):
+    """one text node: a stock text, or a run of tokens in which every pair of neighbours occurs (a character the encoding cannot hold next to ]]>, a
+    carriage return next to ]], ...)"""
+    if r.random() < 0.6:
+        return r.choice(TEXTS)
+    return ''.join(r.choice(TOKENS) for _ in range(r.choice([2, 3, 4, 6, 9])))
+
+
 def gen_mixed(r, depth=0, budget=None):
     """source subtree with every mix of text, elements, comments and PIs that indentation has to get right"""
     if budget is None:
@@ -36,7 +47,7 @@ def gen_mixed(r, depth=0, budget=None):
         budget[0] -= 1
         k = r.random()
         if shape == 'text' or (shape == 'mixed' and k < 0.45):
-            kids.append(c04.src_escape(r.choice(TEXTS)))
+            kids.append(c04.src_escape(gen_text(r)))
         elif k < 0.85:
             kids.append(gen_mixed(r, depth + 1, budget))
         elif k < 0.93:
@@ -78,7 +89,7 @@ def gen_options(r, root_name):
         if r.random() < 0.5:
             o['doctype-public'] = '-//X//Y//EN'
     if r.random() < 0.35:
-        o['cdata-section-elements'] = ' '.join(r.sample(NAMES, r.choice([1, 2, 3])))
+        o['cdata-section-elements'] = ' '.join(r.sample(NAMES, r.choice([1, 2, 3, len(NAMES)])))
     if r.random() < 0.2:
         o['version'] = r.choice(['1.0', '1.1'])
     if r.random() < 0.1:
